@@ -16,6 +16,7 @@ func TestVerif_C25(t *testing.T) {
 	r := vmc.New("C25", "exploration")
 	c25Inputs(r)
 	// C25-SCHED-HOOK
+	c25Sched(r)
 	if err := r.Finish(); err != nil {
 		t.Fatal(err)
 	}
